@@ -1,6 +1,6 @@
 PROP = dict(
     gen=["layouts"],
-    proof_files=["Properties/C16.v", "Proofs/ConnBase.v", "Proofs/ConnC16.v"],
+    proof_files=["Properties/C16.v", "Proofs/ConnBase.v", "Proofs/ConnC16.v", "Proofs/ConnFrag.v"],
     model_files=["Model/ConnLTS.v", "Model/ConnRun.v"],
     trusted=[],
     assumptions=[],
